@@ -151,6 +151,14 @@ func c09(run *ev.Run, tier string) {
 				return
 			}
 			_ = os.Chmod(p, perms[(ji+k)%len(perms)])
+			if j.v == 2 && j.mask%5 == 0 && !shared {
+				// the configured path is a symlink to the script
+				lp := p + ".lnk"
+				_ = os.Remove(lp)
+				if os.Symlink(p, lp) == nil {
+					p = lp
+				}
+			}
 			d.set(s, p)
 			bodies[d.slot] = body
 		}
@@ -227,6 +235,7 @@ func c09(run *ev.Run, tier string) {
 			}
 		}
 	})
+	c09History(run, dir, payload, &slotsCompared)
 	run.Set("slots_compared", slotsCompared)
 	run.Set("script_bytes_compared", bytesCompared)
 	run.Set("subsets_per_format", map[string]int{"deb": 128, "rpm": 128, "apk": 64, "archlinux": 64, "ipk": 16})
@@ -254,5 +263,127 @@ func indexAtLineStart(hay, needle []byte) int {
 			return off + i
 		}
 		off += i + 1
+	}
+}
+
+// slotBytes returns what a decoded package holds in a slot ("" + false when absent).
+func slotBytes(f string, p *dec.Package, slot string) ([]byte, bool) {
+	if f == "archlinux" {
+		hdr := []byte("function " + slot + "() {\n")
+		idx := indexAtLineStart(p.Install, hdr)
+		if idx < 0 {
+			return nil, false
+		}
+		rest := p.Install[idx+len(hdr):]
+		end := bytes.Index(rest, []byte("\n}\n"))
+		if end < 0 {
+			return rest, true
+		}
+		return rest[:end], true
+	}
+	b, ok := p.Scripts[slot]
+	return b, ok
+}
+
+// c09History: sequences of builds in one process.
+func c09History(run *ev.Run, dir, payload string, compared *int64) {
+	mk := func() *gen.Spec {
+		s := &gen.Spec{Name: "scrh", Arch: "amd64", Version: "1.0.0", Maintainer: "S <s@example.com>", Description: "scripts", MTime: 1400000000}
+		s.RPM.BuildHost = "verif-host"
+		s.Contents = []*gen.Content{{Src: payload, Dst: "/opt/scrh/payload.txt"}}
+		return s
+	}
+	for _, f := range formats {
+		defs := slotTable[f]
+		// (1) a script is rewritten in place with the same size and the same mtime
+		paths := map[string]string{}
+		s := mk()
+		for k, d := range defs {
+			p := filepath.Join(dir, fmt.Sprintf("hist-%s-%d.sh", f, k))
+			_ = os.WriteFile(p, []byte(fmt.Sprintf("#!/bin/sh\n# FIRST-%s-%s\nexit 0\n", f, d.slot)), 0o755)
+			paths[d.slot] = p
+			d.set(s, p)
+		}
+		y := s.YAML()
+		first := buildYAML(y, f)
+		if first.Err != nil {
+			run.Violate("C09/"+f+"/build-error", map[string]any{"history": "first build", "error": first.Err.Error()})
+			continue
+		}
+		for _, d := range defs {
+			p := paths[d.slot]
+			st, _ := os.Stat(p)
+			_ = os.WriteFile(p, []byte(fmt.Sprintf("#!/bin/sh\n# LATER-%s-%s\nexit 0\n", f, d.slot)), 0o755)
+			if st != nil {
+				_ = os.Chtimes(p, st.ModTime(), st.ModTime())
+			}
+		}
+		second := buildYAML(y, f)
+		run.Case("history|rewritten-same-size-and-mtime|"+f, true)
+		if second.Err != nil {
+			run.Violate("C09/"+f+"/build-error", map[string]any{"history": "second build", "error": second.Err.Error()})
+		} else {
+			p := dec.Decode(f, second.Bytes, false)
+			for _, d := range defs {
+				atomic.AddInt64(compared, 1)
+				got, ok := slotBytes(f, p, d.slot)
+				want := fmt.Sprintf("#!/bin/sh\n# LATER-%s-%s\nexit 0\n", f, d.slot)
+				if !ok || string(got) != want {
+					run.Violate("C09/"+f+"/slot-content/stale-after-script-changed-on-disk", map[string]any{"slot": d.slot, "got": ev.Short(string(got), 120), "want": want})
+				}
+			}
+		}
+		// (2) a failed build (one script missing) must leave nothing behind for the next one
+		bad := mk()
+		for k, d := range defs {
+			if k == len(defs)-1 {
+				d.set(bad, filepath.Join(dir, "does-not-exist.sh"))
+			} else {
+				d.set(bad, paths[d.slot])
+			}
+		}
+		if r := buildYAML(bad.YAML(), f); r.Err == nil {
+			run.Violate("C09/"+f+"/missing-script-accepted", map[string]any{})
+		}
+		good := mk()
+		defs[0].set(good, paths[defs[0].slot])
+		third := buildYAML(good.YAML(), f)
+		run.Case("history|after-failed-build|"+f, true)
+		if third.Err != nil {
+			run.Violate("C09/"+f+"/build-error", map[string]any{"history": "build after a failed one", "error": third.Err.Error()})
+		} else {
+			p := dec.Decode(f, third.Bytes, false)
+			for k, d := range defs {
+				atomic.AddInt64(compared, 1)
+				_, ok := slotBytes(f, p, d.slot)
+				if ok != (k == 0) {
+					run.Violate("C09/"+f+"/slot-populated-without-config/after-failed-build", map[string]any{"slot": d.slot, "present": ok})
+				}
+			}
+		}
+		// (3) an override block that configures one script keeps the base's other scripts
+		if len(defs) >= 2 {
+			ov := mk()
+			defs[0].set(ov, paths[defs[0].slot])
+			o := &gen.Over{}
+			tmp := &gen.Spec{}
+			defs[1].set(tmp, paths[defs[1].slot])
+			o.Scripts, o.RPM, o.Deb, o.APK, o.ArchL = tmp.Scripts, tmp.RPM, tmp.Deb, tmp.APK, tmp.ArchL
+			ov.SetOverride(f, o)
+			r := buildYAML(ov.YAML(), f)
+			run.Case("override-merges-scripts|"+f, true)
+			if r.Err != nil {
+				run.Violate("C09/"+f+"/build-error", map[string]any{"history": "override scripts", "error": r.Err.Error()})
+			} else {
+				p := dec.Decode(f, r.Bytes, false)
+				for k, d := range defs {
+					atomic.AddInt64(compared, 1)
+					_, ok := slotBytes(f, p, d.slot)
+					if ok != (k < 2) {
+						run.Violate("C09/"+f+"/override-block-scripts-not-merged-with-base", map[string]any{"slot": d.slot, "present": ok, "want_present": k < 2})
+					}
+				}
+			}
+		}
 	}
 }
